@@ -30,6 +30,12 @@ behaviour the model fixes, so the model disagrees as soon as the harness asks th
 three of the seven "missed by all" changes in advance (C11_5, C07_8's `fill_buf` error arm, C16_6's accessors).
 Wave 10 (ten properties, after the strengthening that wave 9 led to): 19 kept (1 duplicate dropped); 18 caught by the property's own check at first
 evaluation, 1 (C13_11, a sub-byte scatter mask, in C15's domain) only by the checks of other properties, none missed.
+Wave 11 (the four properties with the fewest changes so far: C11, C14, C15, C20; two changes each, the agents were told what earlier waves had used): 8 kept;
+7 caught by the property's own check at first evaluation, 1 (C14_7: the stream writer's row buffer not shrunk for a narrower later frame) only by C12 and C03 —
+C14 enumerated `filter` / `unfilter` directly and never drove the encoder's row bookkeeping, although the property says "the encoder's filtering followed by that
+reconstruction is the identity".  Strengthened with `props/c14_enc.rs` (every row the encoder emits through `write_image_data` and `StreamWriter`, over 1..4 images
+of different sizes, reconstructed with the specification's formula from the harness's own parse of the file); C14_7 and the older C14_3 (previous-row buffer not
+cleared between frames, until then caught by C03 only) are now caught by C14 with a shrunk two-image session.
 
 | id | breaks | change | needs | caught by (quick tier) | what had to be strengthened |
 |---|---|---|---|---|---|
